@@ -56,6 +56,13 @@ def solver_case(rep, spec, index):
     extra = [gen.gen_composition(rng, fc.mix, basis="weight", edge=0.02) for _ in range(2)]
     comps_w = [fc.comp] + extra
     comps_m = [gen.to_molar_exact(c, fc.mix) for c in comps_w]
+    if rng.random() < 0.3:
+        # the same NUMBER under both labels in one list (30 wt% next to 30 mol%); the twin list holds the same two physical
+        # points, each in the other basis
+        q = rng.uniform(0.05, 0.95)
+        wq, mq = Composition(p=q, type="weight"), Composition(p=q, type="molar")
+        comps_w += [wq, mq]
+        comps_m += [gen.to_molar_exact(wq, fc.mix), gen.to_weight_exact(mq, fc.mix)]
     case = dict(fc.describe(), index=index, level="solver", x_molar=xm.p)
     pv = fc.pv
 
